@@ -154,6 +154,18 @@ func mutateIllFormed(rng *rand.Rand, rt *rmodel.Route, prior []*rmodel.Route) (o
 	case 8: // expression that does not compile
 		bad := badExprs[rng.Intn(len(badExprs))]
 		seg := rmodel.Segment{Elems: []rmodel.Elem{{Params: []rmodel.Param{{Name: "e", Value: bad, IsRegex: true, Blanks: 1}}}}}
+		if rng.Intn(2) == 0 {
+			// each expression is broken on its own, but the assembled pattern of the segment would compile
+			pair := [][2]string{{`[x`, `y]`}, {`[x`, `[0-9]+]`}, {`a)(b`, `c`}, {`(a`, `b)`}, {`x\`, `y)`}}[rng.Intn(5)]
+			switch rng.Intn(3) {
+			case 0:
+				seg = rmodel.Segment{Elems: []rmodel.Elem{{Params: []rmodel.Param{{Name: "e", Value: pair[0], IsRegex: true, Blanks: 1}, {Name: "g", Value: pair[1], IsRegex: true, Blanks: 1, Lead: 1}}}}}
+			case 1:
+				seg = rmodel.Segment{Elems: []rmodel.Elem{{Params: []rmodel.Param{{Name: "e", Value: pair[0], IsRegex: true, Blanks: 1}}}, {Lit: "_"}, {Params: []rmodel.Param{{Name: "g", Value: pair[1], IsRegex: true, Blanks: 1}}}}}
+			default:
+				seg = rmodel.Segment{Elems: []rmodel.Elem{{Params: []rmodel.Param{{Name: "e", Value: pair[0], IsRegex: true, Blanks: 1}}}, {Params: []rmodel.Param{{Name: "g", Value: pair[1], IsRegex: true, Blanks: 1}}}}}
+			}
+		}
 		i := rng.Intn(n + 1)
 		cp.Segs = append(cp.Segs[:i], append([]rmodel.Segment{seg}, cp.Segs[i:]...)...)
 		if i < len(cp.Segs)-1 {
